@@ -196,8 +196,92 @@ def run(ctx, run):
     _full_frame_admitted(ctx, run)
     _served_by_own_services(ctx, run)
     _header_complete_by_offset(ctx, run)
+    _services_accumulate(ctx, run, P.need("vbi_proxyd_take_service_req", UNIT))
+    _sent_frame_released(ctx, run, P.need("vbi_proxyd_handle_client_sockets", UNIT))
     from .. import sweep
     sweep.run(ctx, run, ["src/proxy-client.c"], {}, 10)
+
+
+def _services_accumulate(ctx, run, f):
+    """A service request without the reset flag *adds* services: the store that enters the new services at their
+    level of strictness keeps what the client already had there (an OR into the element), otherwise the lines of the
+    earlier services are filtered out of every later frame for that client."""
+    run.touch(f)
+    newp = [p["name"] for p in f.params if p["name"] not in (f.params[0]["name"],)]
+    n = 0
+    for bid, i in flow.all_events(f):
+        for lhs, var, op, rhs in flow.stores(f, i):
+            if lhs is None or rhs is None:
+                continue
+            flds = atoms.Operand(f, lhs).fields
+            if not any(x.endswith(".services") for x in flds):
+                continue
+            ro = atoms.Operand(f, rhs)
+            if not ro.locals or ro.const is not None:
+                continue
+            r = f.exprs[ex.skip(f, rhs)]
+            if r["k"] == "un" and r["op"] == "~":
+                continue            # `&= ~new_services` takes services away from the other levels
+            n += 1
+            key = "RF-CORR:%s:services-accumulate" % f.name
+            keeps = op in ("|=",) or (op == "=" and any(x.endswith(".services") for x in ro.fields))
+            if keeps:
+                run.holds("RF-CORR", key, "`%s` adds to the services held at that level" % ex.pretty(f, i)[:70], ex.loc(f, i))
+            else:
+                run.violation("RF-CORR", key, "`%s` replaces the services the client holds at that level of strictness instead of "
+                              "adding to them: a request without the reset flag drops the earlier services, whose lines are then "
+                              "filtered out of every later frame" % ex.pretty(f, i)[:80], ex.loc(f, i), witness={"function": f.name})
+    run.floor("stores entering requested services", n, 1)
+
+
+def _sent_frame_released(ctx, run, f):
+    """When vbi_proxyd_send_sliced() has succeeded the frame is in the client's message buffer: the client's queue
+    cursor must advance (vbi_proxy_queue_release_sliced) before the loop goes on to the next client or returns -
+    whether or not the write blocked - or the same frame is sent again."""
+    run.touch(f)
+    n = 0
+    for bid, b in f.blocks.items():
+        t = b.term
+        if not t or "cond" not in t:
+            continue
+        if not any(f.exprs[m]["k"] == "call" and f.exprs[m].get("callee") == "vbi_proxyd_send_sliced" for m in ex.walk(f, t["cond"])):
+            continue
+        call = [m for m in ex.walk(f, t["cond"]) if f.exprs[m]["k"] == "call" and f.exprs[m].get("callee") == "vbi_proxyd_send_sliced"][0]
+        r = ex.root(f, f.exprs[call]["c"][0])
+        clnt = f.exprs[r]["name"] if r is not None else None
+        # the success edge
+        succ = [s for s, lab in f.edges(bid)
+                if any(a.call_cmp("vbi_proxyd_send_sliced", "!=", 0) for a in atoms.edge_atoms(f, bid, lab))]
+        if not succ:
+            continue
+        n += 1
+        bad = None
+        seen, st = set(), list(succ)
+        while st:
+            x = st.pop()
+            if x in seen:
+                continue
+            seen.add(x)
+            evs = flow.events(f, x)
+            if any(f.exprs[i]["k"] == "call" and f.exprs[i].get("callee") in ("vbi_proxy_queue_release_sliced", "vbi_proxyd_close")
+                   for i in evs):
+                continue
+            if x == f.exit or any(lhs is not None and f.exprs[ex.skip(f, lhs)]["k"] == "ref"
+                                  and f.exprs[ex.skip(f, lhs)].get("name") == clnt
+                                  for i in evs for lhs, var, op, rhs in flow.stores(f, i)):
+                bad = x
+                break
+            st.extend(s2 for s2, _ in f.edges(x))
+        key = "RF-PAIR:%s:sent-frame-released" % f.name
+        if bad is None:
+            run.holds("RF-PAIR", key, "after a successful vbi_proxyd_send_sliced every path releases the frame before the next client",
+                      ex.loc(f, call))
+        else:
+            run.violation("RF-PAIR", key, "after a successful vbi_proxyd_send_sliced (%s) a path reaches the next client without "
+                          "vbi_proxy_queue_release_sliced (%s): the frame already copied into the message buffer stays at the head "
+                          "of the client's queue and is sent a second time" % (clnt, clnt), ex.loc(f, call),
+                          witness={"function": f.name})
+    run.floor("vbi_proxyd_send_sliced result tests", n, 1)
 
 
 def _lock_analysis(ctx):
